@@ -41,15 +41,13 @@ REQUIRED_THEOREMS = [
     "C19.mmap_pointer_aligned",
     "C19.order_choice",
     "C19.reduce_offset",
-    "C19.reduce_strided_faithful_partial",
-    "C19.reduce_negative_stride_counterexample",
-    "C19.reduce_contiguous_faithful_partial",
-    "C19.reduce_transposed_counterexample",
-    "C19.total_buffer_len_covers_partial",
-    "C19.total_buffer_len_floor_counterexample",
-    "C19.repaired_strided_faithful",
-    "C19.repaired_contiguous_faithful",
-    "C19.repaired_buffer_is_the_extent",
+    "C19.reduce_strided_faithful",
+    "C19.reduce_contiguous_faithful",
+    "C19.total_buffer_len_covers",
+    "C19.prefix_negative_stride_counterexample",
+    "C19.prefix_transposed_counterexample",
+    "C19.prefix_total_buffer_len_floor_counterexample",
+    "C19.prefix_witnesses_repaired",
 ]
 TRUSTED_EXTRA = [
     "runs under python3-vt (CPython 3.11.7, numpy 2.4.6), not the repo's pinned 3.12.1 (which has no numpy)",
@@ -61,8 +59,10 @@ TRUSTED_EXTRA = [
     "interpretation fixed in DESIGN 6/C19: with ensure_native_byte_order in effect (default 'auto', no mmap) dtype identical "
     "up to byte order and identical values; strictly identical dtype/bytes with ensure_native_byte_order=False and for "
     "mmap loads; identity of an array referenced twice in a container is NOT demanded (joblib writes it twice)",
-    "known findings F16, F24-F27 (see known_findings.json) are reproduced on every run; their theorems are the "
-    "…_partial / …_counterexample ones",
+    "known findings F16 and F27 (see known_findings.json) are reproduced on every run (F27: read_inverts_write_partial / "
+    "itemsize_zero_counterexample); F24-F26 are fixed in /repo (b514cf6, 5cddabe): the model is the repaired code, the "
+    "witnesses against the pre-fix code are the C19.prefix_* theorems over the …PreFix definitions; on a tree without the "
+    "fixes the check reports them (oracle signatures worker-view:*)",
 ]
 
 WORKER = Path(__file__).resolve().parent.parent / "c19_worker.py"
